@@ -946,7 +946,7 @@ Engine MakeEngine()
     e.stub_components = {"OS thread scheduler (threadsim token passing, seeded)", "clocks (SetMockTime for NodeClock, simulated steady clock for CScheduler)", "peers/RPC (blocks and transactions handed to ProcessNewBlock / ProcessTransaction / ProcessNewPackage)",
                          "forwarding TaskRunner in front of SerialTaskRunner: answers the workload's own per-call SyncWithValidationInterfaceQueue barrier immediately when <= 10 callbacks are pending (lazy knob)"};
     e.assumptions = {"known finding tx-removed-never-added-evicted-on-entry (a single submission accepted and then expired/trimmed by its own LimitMempoolSize is reported removed but never added) is raised at the end of each run in which it occurs; every other removal without a preceding addition is a hard violation",
-                     "the node is never in initial block download (MempoolTransactionsRemovedForBlock is documented not to fire in IBD)", "in-memory databases, no restarts (a restart re-bases every subscriber)",
+                     "initial block download only as a leading phase of 25% of the runs (1h max_tip_age, clock 1000 days ahead, ended by one block stamped with the clock; MempoolTransactionsRemovedForBlock is documented not to fire in IBD and is required from the block that ends it onwards); a node that re-enters IBD does not exist (the latch is one-way)", "in-memory databases, no restarts (a restart re-bases every subscriber)",
                      "truth of tip changes relies on the synchronous BlockChecked(valid) call of ConnectTip being followed by SetTip (true unless a flush fails, which is a fatal error here)",
                      "RefChain block tree (parents, heights, generated block bytes) is the identity reference for reported blocks; MempoolSim::made and the generated blocks are the identity reference for reported transactions",
                      "threads are serialised by threadsim: weak-memory effects are invisible"};
